@@ -312,3 +312,23 @@ def run(cx):
                         ob.fail("refuted", f"content-field-write/{owner_path(prog, b)}/{f}", f"{b.path} writes/mutably borrows {adt.split('::')[-1]}.{f} on the transport path", b.path, b.loc(bb))
                     else:
                         ob.count(1)
+
+    with cx.ob("C02.8", "R-CALLERS", "SendStream's AsyncWrite impl is pure delegation: each poll_* forwards once to the same poll_* of the wrapped quinn stream with its own arguments (no buffering, no non-cancel-safe future in between)") as ob:
+        n = 0
+        for m in ("poll_write", "poll_flush", "poll_shutdown"):
+            b = cx.impl_method("anemo::connection::SendStream", "AsyncWrite", m)
+            o = Origins(b)
+            fw = [c for c, ch in call_sites_through(prog, b, lambda c_: True, depth=2)
+                  if not name_matches(c.fn, ("Pin::new", "DerefMut::deref_mut", "Deref::deref", "Pin::as_mut", "Pin::get_mut", "Poll::map_err", "Poll::map", "Into::into", "From::from", "Pin::new_unchecked"))
+                  and not is_tracing(c)]
+            n += len(fw)
+            ok = len(fw) == 1 and (fw[0].fn or "").split("::")[-1] == m and ("quinn::send_stream::SendStream" in (fw[0].callee or "") or "quinn::send_stream::SendStream" in (fw[0].self_ty or "") or "quinn::send_stream::SendStream" in str(fw[0].ga))
+            ob.require(ok, f"sendstream/{m}/delegates", f"{b.path} calls {[c.callee for c in fw]} instead of forwarding once to quinn's {m}", b.path)
+            if ok:
+                t = arg_origin(fw[0], 0, Origins(fw[0].body))
+                ob.require(mentions_field(t, "0") and mentions_param(t, "self"), f"sendstream/{m}/on-wrapped-stream", f"{m} forwarded on {show(t)[:80]}", b.path)
+                if m == "poll_write":
+                    ob.require(is_param(strip_identity(arg_origin(fw[0], 2, Origins(fw[0].body))), "buf"), "sendstream/poll_write/same-buffer", "poll_write forwards a different buffer", b.path)
+            kids = [k for k in prog.children(b)]
+            ob.require(not [k for k in kids if k.coroutine], f"sendstream/{m}/no-future", f"{b.path} builds an async block / future (not cancel-safe across polls)", b.path)
+        ob.floor(n, 3, "forwarding calls inspected")
